@@ -29,8 +29,6 @@ NOT_APPLICABLE = {
 }
 
 NOT_BUILT = {
- "C01": "contract designed (DESIGN section 4) but the lazy-initialisation front end that discharges the rule contracts is not built yet",
- "C02": "contract designed (DESIGN section 4); depends on the C01 machinery, not built yet",
  "C04": "contract designed (DESIGN section 4); the C front end (clang JSON AST interpreter) is not built",
  "C08": "contract designed (DESIGN section 4); not built yet",
  "C09": "contract designed (DESIGN section 4); lazy initialisation not built yet",
